@@ -197,29 +197,56 @@ BuildShape(x) == LET T == ShapeTargets[x.ti]   n == Len(T.P)   got == Submitted[
                  Case(T.kind, x.tol, 0, x.policy, x.gi = 0, T.P, [s \in 1..n |-> got], Flat(<<1, 2>>), Cfg(One, <<1, 2>>, <<3, 10>>, <<1, 5>>))
 
 (* ------------------------------------------------------------------ histories on one comparer object (Part = "history")
-   One LinearComparer (or MatrixEntryComparer) object is shared by several graders and asked a sequence of calls:
-     linear   graders  A: expected x (scalar)   B: expected [x, 2x - 1]   Z: expected 0        (x sampled at 1, 2, 4)
-              submissions  zero | prop (2 e) | offset (e + 1) | linear (2 e + 1) | equal | sq (e^2, not linear)
-     entry    graders  V: vector target   M: 2 x 2 target;   submissions  right | one entry wrong | all wrong
-   Every state is one history (c.hist); out.calls lists, call by call, the concrete case, the allowed outcomes
-   (Comparers!Allowed of that call alone) and the outcome of the implementation-shaped object model; out.modes is the
-   object state of that model.  The adapter replays the whole history on ONE comparer object and one grader object
-   per grader name, and compares call by call.                                                                  *)
+   One LinearComparer (or MatrixEntryComparer) object is shared by several graders -- passed explicitly in their answers
+   (share = "explicit") or installed with set_default_comparer (share = "default") -- and asked a sequence of calls.
+   The graders sharing it DIFFER in their configuration (tolerance kind and size, mismatch policy); what is allowed for
+   a call is Comparers!Allowed of that call under the calling grader's own configuration, whatever came before.
+     linear   graders  A: expected x (scalar), tolerance abs       B: expected [x, 2x - 1], tolerance tiny, mismatch
+                       rejected with shape detail                  Z: expected 0, percentage tolerance     (x = 1, 2, 4)
+              submissions  zero | prop (2 e) | offset (e + 1) | linear (2 e + 1) | equal | sq (e^2)
+                           | eqshift (e with the first sample shifted by 1e-7: equal for A, nothing for B)
+                           | shape (B only: a scalar)
+     entry    graders  V: vector target, tolerance abs, default policy     M: 2 x 2 target, tolerance zero, mismatch
+                       rejected with shape detail     W: another vector target, tolerance tiny, messages suppressed
+              submissions  right | one entry wrong | all wrong | shift (right, first entry shifted by 1e-7: matches
+                           for V, a wrong entry for M and W) | shape (a vector of another length / a scalar)
+   Every state is one history (c.hist); out.calls lists, call by call, the concrete case, the allowed outcomes and the
+   outcome of the implementation-shaped object model; out.obj is the object state of that model.  The adapter replays
+   the whole history on ONE comparer object and one grader object per grader name, and compares call by call.   *)
 MaxHist == 3
 HistCfgs == {Cfg(One, <<1, 2>>, <<3, 10>>, <<1, 5>>), DefaultCfg} \cup (IF Thorough THEN {Cfg(One, None, None, One)} ELSE {})
-HistSubs == {"zero", "prop", "offset", "linear"} \cup (IF Thorough THEN {"equal", "sq"} ELSE {})
-HistSeeds == {[kind |-> "seed", obj |-> "linear", cfg |-> g, mode |-> Flat(Zero)] : g \in HistCfgs}
-             \cup {[kind |-> "seed", obj |-> "entry", cfg |-> DefaultCfg, mode |-> m] : m \in {Proportional, Flat(<<1, 2>>)}}
-HistCallsFor(obj) == IF obj = "linear" THEN [g : {"A", "B", "Z"}, sub : HistSubs] ELSE [g : {"V", "M"}, sub : {"right", "one", "all"}]
+HistSeeds == {s \in {[kind |-> "seed", obj |-> "linear", cfg |-> g, mode |-> Flat(Zero), share |-> sh] : g \in HistCfgs, sh \in {"explicit", "default"}} :
+                ~Thorough => (s.share = "explicit" \/ s.cfg = DefaultCfg)}
+             \cup {s \in {[kind |-> "seed", obj |-> "entry", cfg |-> DefaultCfg, mode |-> m, share |-> sh] : m \in {Proportional, Flat(<<1, 2>>)}, sh \in {"explicit", "default"}} :
+                     (~Thorough /\ s.share = "default") => s.mode = Proportional}
+RejectShape == [raised |-> FALSE, detail |-> "shape", suppress |-> FALSE, shapeErrors |-> TRUE]
+Suppressed == [raised |-> TRUE, detail |-> "type", suppress |-> TRUE, shapeErrors |-> FALSE]
+HistGrader(g) == CASE g = "A" -> [tol |-> "abs", policy |-> DefaultPolicy]
+                   [] g = "B" -> [tol |-> "tiny", policy |-> RejectShape]
+                   [] g = "Z" -> [tol |-> "pct", policy |-> DefaultPolicy]
+                   [] g = "V" -> [tol |-> "abs", policy |-> DefaultPolicy]
+                   [] g = "M" -> [tol |-> "zero", policy |-> RejectShape]
+                   [] g = "W" -> [tol |-> "tiny", policy |-> Suppressed]
+HistLinSubs == {"zero", "prop", "linear"} \cup (IF Thorough THEN {"offset", "equal", "sq"} ELSE {})
+HistEntrySubs == {"right", "one", "shift", "shape"} \cup (IF Thorough THEN {"all"} ELSE {})
+HistCallsFor(obj) == IF obj = "linear"
+                     THEN [g : {"A", "B", "Z"}, sub : HistLinSubs] \cup [g : {"A", "B"}, sub : {"eqshift"}] \cup [g : {"B"}, sub : {"shape"}]
+                     ELSE [g : {"V", "M", "W"}, sub : HistEntrySubs]
 HistA(sub) == IF sub \in {"prop", "linear"} THEN [z |-> G(2), d |-> 1] ELSE IF sub = "zero" THEN [z |-> GZ, d |-> 1] ELSE [z |-> G(1), d |-> 1]
 HistB(sub) == IF sub \in {"offset", "linear"} THEN [z |-> G(1), d |-> 1] ELSE [z |-> GZ, d |-> 1]
+HistEntryTarget(g) == IF g = "V" THEN 2 ELSE IF g = "M" THEN 4 ELSE 3
 HistCase(seed, call) ==
+  LET cfgG == HistGrader(call.g) IN
   IF seed.obj = "linear"
-  THEN BuildLin([cfg |-> seed.cfg, xi |-> IF call.g = "Z" THEN 4 ELSE 1, vec |-> call.g = "B", a |-> HistA(call.sub), b |-> HistB(call.sub),
-                 nl |-> IF call.sub = "sq" THEN "sq" ELSE "none", jit |-> 0, tol |-> "abs"])
-  ELSE LET ti == IF call.g = "V" THEN 2 ELSE 4   n == Len(EntryTargets[ti].ent) IN
-       BuildEntry([ti |-> ti, smode |-> "const", wrong |-> IF call.sub = "right" THEN {} ELSE IF call.sub = "one" THEN {1} ELSE 1..n,
-                   mode |-> seed.mode, jit |-> 0, tol |-> "abs"])
+  THEN LET k == BuildLin([cfg |-> seed.cfg, xi |-> IF call.g = "Z" THEN 4 ELSE 1, vec |-> call.g = "B", a |-> HistA(call.sub), b |-> HistB(call.sub),
+                          nl |-> IF call.sub = "sq" THEN "sq" ELSE "none", jit |-> IF call.sub = "eqshift" THEN 1 ELSE 0, tol |-> cfgG.tol])
+       IN IF call.sub = "shape" THEN [k EXCEPT !.policy = cfgG.policy, !.S = [s \in 1..Len(k.S) |-> Sc(G(3))]]
+          ELSE [k EXCEPT !.policy = cfgG.policy]
+  ELSE LET ti == HistEntryTarget(call.g)   n == Len(EntryTargets[ti].ent)
+           k == BuildEntry([ti |-> ti, smode |-> "const", wrong |-> IF call.sub = "one" THEN {n} ELSE IF call.sub = "all" THEN 1..n ELSE {},
+                            mode |-> seed.mode, jit |-> IF call.sub = "shift" THEN 1 ELSE 0, tol |-> cfgG.tol])
+       IN IF call.sub = "shape" THEN [k EXCEPT !.policy = cfgG.policy, !.S = <<(IF call.g = "M" THEN Sc(G(3)) ELSE Vc(<<G(1), G(1), GZ, G(2), G(5)>>))>>]
+          ELSE [k EXCEPT !.policy = cfgG.policy]
 
 (* ------------------------------------------------------------------ two-level enumeration *)
 Seeds == CASE Part = "cong" -> CongSeeds [] Part = "between" -> BetweenSeeds [] Part = "eigen" -> EigSeeds
@@ -235,12 +262,12 @@ Init == c \in Seeds /\ out = "seed"
 NextHist == /\ c.kind = "seed" \/ (c.kind = "history" /\ Len(c.hist) < MaxHist)
             /\ \E call \in HistCallsFor(c.obj) :
                  LET k == HistCase(c, call)
-                     prev == IF c.kind = "seed" THEN [calls |-> <<>>, modes |-> ObjModesInit(c.cfg)] ELSE out
-                 IN /\ c' = [kind |-> "history", obj |-> c.obj, cfg |-> c.cfg, mode |-> c.mode,
+                     prev == IF c.kind = "seed" THEN [calls |-> <<>>, obj |-> ObjInit(c.cfg)] ELSE out
+                 IN /\ c' = [kind |-> "history", obj |-> c.obj, cfg |-> c.cfg, mode |-> c.mode, share |-> c.share,
                              hist |-> Append(IF c.kind = "seed" THEN <<>> ELSE c.hist, call)]
                     /\ out' = [calls |-> Append(prev.calls, [case |-> k, allowed |-> Allowed(k),
-                                                            impl |-> ImplOutcomeOnObject(k, prev.modes, Flaws)]),
-                               modes |-> ObjModesNext(prev.modes, k, Flaws)]
+                                                            impl |-> ImplOutcomeOnObject(k, prev.obj, Flaws)]),
+                               obj |-> ObjNext(prev.obj, k, Flaws)]
 Next == IF Part = "history" THEN NextHist ELSE
         /\ c.kind = "seed"
         /\ c' \in CasesFor(c)
@@ -279,15 +306,18 @@ LawImplDeviatesOnlyThere_ == IsCase => out.impl \in out.allowed \/ out.why # "no
 ImplRefines_ == (IsCase => out.impl \in out.allowed) /\ (IsHist => Last.impl \in Last.allowed)
 \* histories: every call is a guarded case of the specification; what is allowed for a call does not depend on the calls
 \* before it (equal calls, equal allowed sets); the object model of the current code never changes its state, agrees
-\* with the stateless model and stays inside the allowed set (the variant "AliasedModeFilter" does not: *_flaw_aliased_modes.cfg)
+\* with the stateless model and stays inside the allowed set (the variants "AliasedModeFilter" / "StickyEntryTolerance" do not: *_flaw_aliased_modes.cfg, *_flaw_sticky_tolerance.cfg)
 LawHistory == IsHist =>
   /\ Len(out.calls) = Len(c.hist) /\ Len(c.hist) <= MaxHist
   /\ WellFormedCase(Last.case) /\ GuardOK(Last.case) /\ LawOutcomeWellFormed(Last.case, Last.allowed)
+  \* the allowed outcome is a function of the call and of the calling grader's own configuration
+  /\ Last.allowed = Allowed(HistCase(c, c.hist[Len(c.hist)]))
+  /\ Last.case.tol = HistGrader(c.hist[Len(c.hist)].g).tol /\ Last.case.policy = HistGrader(c.hist[Len(c.hist)].g).policy
   /\ \A i \in 1..Len(c.hist) : c.hist[i] = c.hist[Len(c.hist)] => out.calls[i].allowed = Last.allowed
   /\ LawFreshObject(Last.case, Flaws)
-  /\ "AliasedModeFilter" \notin Flaws => /\ out.modes = ObjModesInit(c.cfg)
-                                         /\ Last.impl = ImplOutcome(Last.case, Flaws)
-                                         /\ Last.impl \in Last.allowed
+  /\ Flaws \cap {"AliasedModeFilter", "StickyEntryTolerance"} = {} => /\ out.obj = ObjInit(c.cfg)
+                                                                       /\ Last.impl = ImplOutcome(Last.case, Flaws)
+                                                                       /\ Last.impl \in Last.allowed
 LawKind == IsCase =>
   CASE c.kind = "cong" -> LawCongruence(K.S[1], K.P[1][1], K.P[1][2])
     [] c.kind = "between" -> LawBetween(K.S[1], K.P[1][1], K.P[1][2])
